@@ -705,4 +705,1283 @@ theorem pushBorrowedSlice_ext {v v' : Iov} {s : Slice} (h : v.pushBorrowedSlice 
   simpa using this
 
 
+/-! ### `consume` / `consume_by_bytes` -/
+
+theorem consumeSlices_spec {v v' : Iov} {count k : Nat} (h : v.consumeSlices count = some (v', k)) :
+    k = min count v.slices.length ∧ ∃ as1, drainAnchors (v.anchors.length + 1) v.anchors k = some as1 ∧
+      v' = { v with slices := v.slices.drop k, anchors := dropZeroAnchors as1,
+                    consumedSize := v.consumedSize + ((v.slices.take k).map (·.len)).foldl (· + ·) 0,
+                    consumedSlices := v.consumedSlices + k } := by
+  unfold Iov.consumeSlices at h
+  simp only at h
+  split at h
+  · simp at h
+  · rename_i as1 hd
+    split at h
+    · simp at h
+    · simp only [Option.some.injEq, Prod.mk.injEq] at h
+      obtain ⟨h1, h2⟩ := h
+      subst h2
+      exact ⟨rfl, as1, hd, h1.symm⟩
+
+theorem IovOk.consumeSlices {n : Nat} {e : List (List UInt8)} {v v' : Iov} {count k : Nat}
+    (hv : IovOk n e v) (h : v.consumeSlices count = some (v', k)) : IovOk n e v' := by
+  obtain ⟨hk, as1, hd, rfl⟩ := consumeSlices_spec h
+  refine ⟨?_, ?_, hv.cacheLt, ?_⟩
+  · exact (hv.guard.drain _ k (by omega) hd).dropZero
+  · intro c hc
+    exact hv.anchorsLt c (anchorChunks_drain _ k hd c (anchorChunks_dropZero c hc))
+  · intro s hs
+    exact hv.extOk s (List.mem_of_mem_drop hs)
+
+/-- Induction principle for `consume_by_bytes`: whole slices leave through `consume(1)`, the last
+one may be shortened in place. -/
+theorem consumeBytes_preserves (P : Iov → Prop)
+    (h1 : ∀ v v' k, P v → v.consumeSlices 1 = some (v', k) → P v')
+    (h2 : ∀ v s rest n, P v → v.slices = s :: rest → n < s.len →
+      P { v with slices := { s with off := s.off + n, len := s.len - n } :: rest, consumedSize := v.consumedSize + n }) :
+    ∀ (fuel : Nat) (v : Iov) (count consumed : Nat) (v' : Iov) (c : Nat),
+      P v → Iov.consumeBytes fuel v count consumed = some (v', c) → P v' := by
+  intro fuel
+  induction fuel with
+  | zero => intro v count consumed v' c hp h; simp [Iov.consumeBytes] at h; rw [← h.1]; exact hp
+  | succ fuel ih =>
+    intro v count consumed v' c hp h
+    unfold Iov.consumeBytes at h
+    split at h
+    · simp at h; rw [← h.1]; exact hp
+    · split at h
+      · simp at h
+      · rename_i s rest hs
+        simp only at h
+        split at h
+        · split at h
+          · simp at h
+          · rename_i v1 k1 hc1
+            exact ih _ _ _ _ _ (h1 v v1 k1 hp hc1) h
+        · rename_i hn
+          simp at h
+          rw [← h.1]
+          exact h2 v s rest _ hp hs (by omega)
+
+theorem IovOk.consumeBytes {n : Nat} {e : List (List UInt8)} {v v' : Iov} {fuel count consumed c : Nat}
+    (hv : IovOk n e v) (h : Iov.consumeBytes fuel v count consumed = some (v', c)) : IovOk n e v' := by
+  refine consumeBytes_preserves (IovOk n e) (fun v v' k hp hc => hp.consumeSlices hc) ?_ fuel v count consumed v' c hv h
+  intro v s rest m hp hs hm
+  refine ⟨?_, hp.anchorsLt, hp.cacheLt, ?_⟩
+  · have := hp.guard
+    rw [hs] at this
+    exact this.shrink_head rfl (by simp; omega)
+  · intro x hx
+    simp only [List.mem_cons] at hx
+    rcases hx with rfl | hx
+    · intro b hb
+      have := hp.extOk s (by rw [hs]; simp) b hb
+      simp only; omega
+    · exact hp.extOk x (by rw [hs]; simp [hx])
+
+/-! ### `push_copy` -/
+
+/-- The anchor bookkeeping of `push_copy` (`merge_ref_or_create` on the last anchor). -/
+def copyAnchors (as : List Anchor) (chunk : Nat) : List Anchor :=
+  let (old', fresh) := mergeRefOrCreate as.getLast? chunk
+  let anchors := match old' with
+    | some a => setLast as a
+    | none => as
+  match fresh with
+    | some a => anchors ++ [a]
+    | none => anchors
+
+theorem copyAnchors_cases (as : List Anchor) (chunk : Nat) :
+    (∃ ys a, as = ys ++ [a] ∧ a.chunk = some chunk ∧ copyAnchors as chunk = ys ++ [{ a with count := a.count + 1 }]) ∨
+    ((∀ ys a, as = ys ++ [a] → a.chunk ≠ some chunk) ∧ copyAnchors as chunk = as ++ [⟨1, some chunk⟩]) := by
+  rcases List.eq_nil_or_concat as with rfl | ⟨ys, a, rfl⟩
+  · right; refine ⟨by simp, by simp [copyAnchors, mergeRefOrCreate]⟩
+  · rw [List.concat_eq_append]
+    by_cases hc : a.chunk = some chunk
+    · left; refine ⟨ys, a, rfl, hc, ?_⟩
+      simp [copyAnchors, mergeRefOrCreate, hc, setLast_snoc]
+    · right
+      refine ⟨?_, ?_⟩
+      · intro ys' a' h
+        have := List.append_inj_right' h (by simp)
+        simp at this; subst this; exact hc
+      · simp [copyAnchors, mergeRefOrCreate, hc, setLast_snoc]
+
+theorem copyAnchors_ne_nil (as : List Anchor) (chunk : Nat) : copyAnchors as chunk ≠ [] := by
+  rcases copyAnchors_cases as chunk with ⟨ys, a, _, _, h⟩ | ⟨_, h⟩ <;> rw [h] <;> simp
+
+theorem pushCopy_spec {w w' : World} {i : Nat} {src : List UInt8} (h : w.pushCopy i src = some w') :
+    ∃ v, w.iov i = some v ∧ ((src = [] ∧ w' = w) ∨
+      (src ≠ [] ∧ ∃ arena' next' chunk off v2, alloc w.tun v.arena w.next src.length = (arena', next', chunk, off) ∧
+        Iov.optimize { v with slices := v.slices ++ [⟨.chunk chunk, off, src.length⟩],
+                              anchors := copyAnchors v.anchors chunk,
+                              logicalSize := v.logicalSize + src.length, arena := arena' } = some v2 ∧
+        w' = { (w.setIov i (some v2)) with heap := w.heap.write chunk off src, next := next' })) := by
+  unfold World.pushCopy at h
+  split at h
+  · simp at h
+  · rename_i v hv
+    refine ⟨v, hv, ?_⟩
+    split at h
+    · rename_i he
+      left; simp at he h; exact ⟨he, h.symm⟩
+    · rename_i he
+      right
+      refine ⟨by simpa using he, ?_⟩
+      rcases hal : alloc w.tun v.arena w.next src.length with ⟨arena', next', chunk, off⟩
+      simp only [hal] at h
+      have hne : (copyAnchors v.anchors chunk).isEmpty = false := by
+        simpa using copyAnchors_ne_nil v.anchors chunk
+      change (if (copyAnchors v.anchors chunk).isEmpty = true then none else _) = _ at h
+      rw [hne] at h
+      simp only [Bool.false_eq_true, if_false] at h
+      split at h
+      · simp at h
+      · rename_i v2 ho
+        simp at h
+        exact ⟨arena', next', chunk, off, v2, rfl, ho, h.symm⟩
+
+theorem copyAnchors_guard {as : List Anchor} {ss : List Slice} (hg : Guarded as ss) (chunk off len : Nat)
+    (hl : 0 < len) : Guarded (copyAnchors as chunk) (ss ++ [⟨.chunk chunk, off, len⟩]) := by
+  rcases copyAnchors_cases as chunk with ⟨ys, a, has, hc, h⟩ | ⟨_, h⟩
+  · rw [h]
+    rw [has] at hg
+    refine Guarded.snoc_inc (zs := []) hg (by intro z hz; simp at hz) _ hl ?_
+    intro k hk
+    simp at hk; subst hk
+    rw [mem_anchorChunks]; exact ⟨a, by simp, hc⟩
+  · rw [h]
+    exact hg.snoc_new _ _ hl (by intro k hk; simp at hk; rw [hk])
+
+theorem copyAnchors_chunks (as : List Anchor) (chunk : Nat) :
+    ∀ k ∈ anchorChunks (copyAnchors as chunk), k ∈ anchorChunks as ∨ k = chunk := by
+  rcases copyAnchors_cases as chunk with ⟨ys, a, has, hc, h⟩ | ⟨_, h⟩
+  · rw [h, has]
+    intro k hk
+    left
+    rwa [anchorChunks_eq_of_map (bs := ys ++ [a]) (by simp)] at hk
+  · rw [h, anchorChunks_append]
+    intro k hk
+    simp only [List.mem_append] at hk
+    rcases hk with hk | hk
+    · exact Or.inl hk
+    · right; simpa [anchorChunks] using hk
+
+/-! ### The world invariant, stage 1: (N) ids bounded, (G) guard, (A) detached slices anchored, (E) borrows in bounds -/
+
+structure ASliceOk (next : Nat) (s : ASlice) : Prop where
+  /-- (A) the anchor holds the chunk the slice points into -/
+  anchored : ∀ k, s.slice.region = .chunk k → s.anchor.chunk = some k
+  chunkLt : ∀ k, s.anchor.chunk = some k → k < next
+  /-- only the empty default slice is not owned -/
+  extEmpty : ∀ b, s.slice.region = .ext b → s.slice.len = 0
+
+def ArenaOk (next : Nat) (a : Arena) : Prop := ∀ c, a.cache = some c → c.chunk < next
+
+structure WorldInv (w : World) : Prop where
+  iovOk : ∀ i v, w.iov i = some v → IovOk w.next w.exts v
+  arenaOk : ∀ j a, w.arena j = some a → ArenaOk w.next a
+  asliceOk : ∀ j s, w.aslice j = some s → ASliceOk w.next s
+
+theorem ASliceOk.mono {n n' : Nat} {s : ASlice} (h : ASliceOk n s) (hn : n ≤ n') : ASliceOk n' s :=
+  ⟨h.anchored, fun k hk => Nat.lt_of_lt_of_le (h.chunkLt k hk) hn, h.extEmpty⟩
+
+theorem aSliceOk_empty (n : Nat) : ASliceOk n ASlice.empty :=
+  ⟨by simp [ASlice.empty], by simp [ASlice.empty], by simp [ASlice.empty]⟩
+
+/-- The workhorse: every object of `w'` is an object of `w` or is shown to be fine directly;
+chunk ordinals and caller buffers only grow. -/
+theorem WorldInv.transfer {w w' : World} (h : WorldInv w) (hn : w.next ≤ w'.next)
+    (he : ∃ t, w'.exts = w.exts ++ t)
+    (hi : ∀ j v, w'.iov j = some v → w.iov j = some v ∨ IovOk w'.next w'.exts v)
+    (ha : ∀ j a, w'.arena j = some a → w.arena j = some a ∨ ArenaOk w'.next a)
+    (hs : ∀ j s, w'.aslice j = some s → w.aslice j = some s ∨ ASliceOk w'.next s) : WorldInv w' := by
+  obtain ⟨t, het⟩ := he
+  refine ⟨fun j v hv => ?_, fun j a hj => ?_, fun j s hj => ?_⟩
+  · rcases hi j v hv with h1 | h1
+    · rw [het]; exact (h.iovOk j v h1).mono hn
+    · exact h1
+  · rcases ha j a hj with h1 | h1
+    · exact fun c hc => Nat.lt_of_lt_of_le (h.arenaOk j a h1 c hc) hn
+    · exact h1
+  · rcases hs j s hj with h1 | h1
+    · exact (h.asliceOk j s h1).mono hn
+    · exact h1
+
+theorem worldInv_init (pol : Policy) (tun : Tuning) : WorldInv (World.init pol tun) :=
+  ⟨by intro i v h; simp [World.init, World.iov] at h,
+   by intro i v h; simp [World.init, World.arena] at h,
+   by intro i v h; simp [World.init, World.aslice] at h⟩
+
+
+/-! ### Specifications of the world-level functions -/
+
+theorem pushBorrowed_spec {w w' : World} {i : Nat} {s : Slice} (h : w.pushBorrowed i s = some w') :
+    ∃ v, w.iov i = some v ∧ ((s.len = 0 ∧ w' = w) ∨
+      (0 < s.len ∧ ∃ v', v.pushBorrowedSlice s = some v' ∧ w' = w.setIov i (some v'))) := by
+  unfold World.pushBorrowed at h
+  split at h
+  · simp at h
+  · rename_i v hv
+    refine ⟨v, hv, ?_⟩
+    split at h
+    · rename_i h0; left; simp at h; exact ⟨h0, h.symm⟩
+    · rename_i h0
+      split at h
+      · simp at h
+      · rename_i v' hp
+        simp at h
+        right; exact ⟨by omega, v', hp, h.symm⟩
+
+theorem push_cases {w w' : World} {i : Nat} {s : Slice} (h : w.push i s = some w') :
+    w.pushCopy i (w.sliceBytes s) = some w' ∨ w.pushBorrowed i s = some w' := by
+  unfold World.push at h
+  split at h
+  · simp at h
+  · simp only at h
+    split at h <;> (split at h <;> first | exact Or.inl h | exact Or.inr h)
+
+theorem registerPatch_spec {w w' : World} {i : Nat} {pat : List UInt8} {b : Backref}
+    (h : w.registerPatch i pat = some (w', b)) :
+    (pat = [] ∧ w' = w ∧ b = none) ∨
+    (pat ≠ [] ∧ ∃ w1 v last, w.pushCopy i pat = some w1 ∧ w1.iov i = some v ∧ v.slices.getLast? = some last ∧
+      b = some (v.logicalSize, ⟨v.consumedSlices + v.slices.length - 1, last.len - pat.length, pat.length⟩) ∧
+      (∀ kk ii, v.backrefs.getLast? = some (kk, ii) → kk < v.logicalSize) ∧ v.logicalSize ≠ 0 ∧
+      w' = w1.setIov i (some { v with backrefs := v.backrefs ++
+        [(v.logicalSize, ⟨v.consumedSlices + v.slices.length - 1, last.len - pat.length, pat.length⟩)] })) := by
+  unfold World.registerPatch at h
+  split at h
+  · rename_i he; left; simp at he h; exact ⟨he, h.1.symm, h.2.symm⟩
+  · rename_i he
+    right
+    refine ⟨by simpa using he, ?_⟩
+    split at h
+    · simp at h
+    · rename_i w1 hw1
+      split at h
+      · simp at h
+      · rename_i v hv
+        split at h
+        · simp at h
+        · rename_i last hlast
+          simp only at h
+          split at h
+          · rename_i kk ii hgl
+            simp at h
+            obtain ⟨⟨h1, h2⟩, h3, h4⟩ := h
+            refine ⟨w1, v, last, hw1, hv, hlast, h4.symm, ?_, h2, h3.symm⟩
+            intro kk' ii' hl; rw [hgl] at hl; cases hl; exact h1
+          · rename_i hgl
+            simp at h
+            obtain ⟨h2, h3, h4⟩ := h
+            refine ⟨w1, v, last, hw1, hv, hlast, h4.symm, ?_, h2, h3.symm⟩
+            intro kk' ii' hl; rw [hgl] at hl; cases hl
+
+theorem backfill_spec {w w' : World} {i : Nat} {b : Backref} {src : List UInt8} (h : w.backfill i b src = some w') :
+    ∃ v, w.iov i = some v ∧ ((b = none ∧ src = [] ∧ w' = w) ∨
+      (∃ key info target k, b = some (key, info) ∧ info.len = src.length ∧ (key, info) ∈ v.backrefs ∧
+        v.consumedSlices ≤ info.sliceIndex ∧ v.slices[info.sliceIndex - v.consumedSlices]? = some target ∧
+        info.begin + src.length ≤ target.len ∧ target.region = .chunk k ∧
+        w' = { (w.setIov i (some { v with backrefs := v.backrefs.filter (·.1 ≠ key) })) with
+               heap := w.heap.write k (target.off + info.begin) src })) := by
+  unfold World.backfill at h
+  split at h
+  · simp at h
+  · rename_i v hv
+    refine ⟨v, hv, ?_⟩
+    split at h
+    · split at h
+      · rename_i he; left; simp at he h; exact ⟨rfl, he, h.symm⟩
+      · simp at h
+    · rename_i key info
+      right
+      split at h
+      · simp at h
+      · rename_i hlen
+        split at h
+        · simp at h
+        · rename_i found hfound
+          split at h
+          · simp at h
+          · rename_i hf
+            simp only at h
+            split at h
+            · simp at h
+            · rename_i hidx
+              split at h
+              · simp at h
+              · rename_i target htarget
+                split at h
+                · simp at h
+                · rename_i hfit
+                  split at h
+                  · rename_i k hk
+                    simp only [Option.some.injEq] at h
+                    have hmem : (key, info) ∈ v.backrefs := by
+                      have := List.mem_of_find?_eq_some hfound
+                      simp at hf
+                      rw [hf] at this; exact this
+                    exact ⟨key, info, target, k, rfl, by simpa using hlen, hmem, by omega, htarget, by omega, hk, h.symm⟩
+                  · simp at h
+
+theorem consume_spec {w w' : World} {i count k : Nat} (h : w.consume i count = some (w', k)) :
+    ∃ v n v', w.iov i = some v ∧ v.stableCount = some n ∧ v.consumeSlices (min count n) = some (v', k) ∧
+      w' = w.setIov i (some v') := by
+  unfold World.consume at h
+  split at h
+  · simp at h
+  · rename_i v hv
+    split at h
+    · simp at h
+    · rename_i n hn
+      split at h
+      · simp at h
+      · rename_i v' k' hc
+        simp at h
+        obtain ⟨h1, h2⟩ := h
+        subst h2
+        exact ⟨v, n, v', hv, hn, hc, h1.symm⟩
+
+theorem advance_spec {w w' : World} {i count c : Nat} (h : w.advance i count = some (w', c)) :
+    ∃ v n v' k, w.iov i = some v ∧ v.stableCount = some n ∧
+      Iov.consumeBytes (v.slices.length + 1) v k 0 = some (v', c) ∧ w' = w.setIov i (some v') := by
+  unfold World.advance at h
+  split at h
+  · simp at h
+  · rename_i v hv
+    split at h
+    · simp at h
+    · rename_i n hn
+      simp only at h
+      split at h
+      · simp at h
+      · rename_i v' c' hc
+        simp at h
+        obtain ⟨h1, h2⟩ := h
+        subst h2
+        exact ⟨v, n, v', _, hv, hn, hc, h1.symm⟩
+
+/-- Induction principle for `Read for ConsumingIovec`: a loop of `advance_slices`. -/
+theorem readInto_preserves (P : World → Prop)
+    (hstep : ∀ w w' i k c, P w → w.advance i k = some (w', c) → P w') :
+    ∀ (fuel : Nat) (w : World) (i room : Nat) (acc : List UInt8) (w' : World) (out : List UInt8),
+      P w → World.readInto fuel w i room acc = some (w', out) → P w' := by
+  intro fuel
+  induction fuel with
+  | zero => intro w i room acc w' out hp h; simp [World.readInto] at h; rw [← h.1]; exact hp
+  | succ fuel ih =>
+    intro w i room acc w' out hp h
+    unfold World.readInto at h
+    split at h
+    · simp at h; rw [← h.1]; exact hp
+    · split at h
+      · simp at h
+      · split at h
+        · simp at h
+        · split at h
+          · simp at h; rw [← h.1]; exact hp
+          · simp only at h
+            split at h
+            · simp at h
+            · rename_i w1 c1 hadv
+              exact ih _ _ _ _ _ _ (hstep _ _ _ _ _ hp hadv) h
+
+/-- Induction principle for `extend`: a loop of borrowed pushes. -/
+theorem extend_preserves (P : World → Prop)
+    (hstep : ∀ w w' i s, P w → 0 < s.len → w.pushBorrowed i s = some w' → P w') :
+    ∀ (slices : List Slice) (w : World) (i : Nat) (w' : World),
+      P w → w.extend i slices = some w' → (∀ s ∈ slices, True) → P w' := by
+  intro slices
+  induction slices with
+  | nil => intro w i w' hp h _; simp [World.extend] at h; rw [← h]; exact hp
+  | cons s rest ih =>
+    intro w i w' hp h _
+    unfold World.extend at h
+    split at h
+    · exact ih w i w' hp h (fun _ _ => trivial)
+    · rename_i hs
+      split at h
+      · simp at h
+      · rename_i w1 hw1
+        exact ih w1 i w' (hstep w w1 i s hp (by omega) hw1) h (fun _ _ => trivial)
+
+
+/-! ### Preservation of `WorldInv` by the world-level functions -/
+
+@[simp] theorem iov_with_heap_next (w : World) (h : Heap) (n j : Nat) :
+    ({ w with heap := h, next := n } : World).iov j = w.iov j := rfl
+@[simp] theorem arena_with_heap_next (w : World) (h : Heap) (n j : Nat) :
+    ({ w with heap := h, next := n } : World).arena j = w.arena j := rfl
+@[simp] theorem aslice_with_heap_next (w : World) (h : Heap) (n j : Nat) :
+    ({ w with heap := h, next := n } : World).aslice j = w.aslice j := rfl
+@[simp] theorem iov_with_heap (w : World) (h : Heap) (j : Nat) : ({ w with heap := h } : World).iov j = w.iov j := rfl
+@[simp] theorem arena_with_heap (w : World) (h : Heap) (j : Nat) : ({ w with heap := h } : World).arena j = w.arena j := rfl
+@[simp] theorem aslice_with_heap (w : World) (h : Heap) (j : Nat) : ({ w with heap := h } : World).aslice j = w.aslice j := rfl
+@[simp] theorem iov_with_next (w : World) (n j : Nat) : ({ w with next := n } : World).iov j = w.iov j := rfl
+@[simp] theorem arena_with_next (w : World) (n j : Nat) : ({ w with next := n } : World).arena j = w.arena j := rfl
+@[simp] theorem aslice_with_next (w : World) (n j : Nat) : ({ w with next := n } : World).aslice j = w.aslice j := rfl
+
+theorem alloc_ok {t : Tuning} {a a' : Arena} {next next' len chunk off : Nat} (ha : ArenaOk next a)
+    (h : alloc t a next len = (a', next', chunk, off)) :
+    next ≤ next' ∧ chunk < next' ∧ ArenaOk next' a' := by
+  rcases alloc_cases t a next len with ⟨c, hc, _, he⟩ | ⟨cap, _, _, he⟩
+  · rw [he] at h; simp at h
+    obtain ⟨rfl, rfl, rfl, rfl⟩ := h
+    refine ⟨Nat.le_refl _, ha c hc, ?_⟩
+    intro c' hc'; simp at hc'; subst hc'; exact ha c hc
+  · rw [he] at h; simp at h
+    obtain ⟨rfl, rfl, rfl, rfl⟩ := h
+    refine ⟨by omega, by omega, ?_⟩
+    intro c' hc'; simp at hc'; subst hc'; simp
+
+theorem ensureCapacity_ok {t : Tuning} {a a' : Arena} {next next' len : Nat} (ha : ArenaOk next a)
+    (h : ensureCapacity t a next len = (a', next')) : next ≤ next' ∧ ArenaOk next' a' := by
+  rcases ensureCapacity_cases t a next len with ⟨c, hc, _, he⟩ | ⟨cap, _, _, he⟩
+  · rw [he] at h; simp at h
+    obtain ⟨rfl, rfl⟩ := h
+    exact ⟨Nat.le_refl _, ha⟩
+  · rw [he] at h; simp at h
+    obtain ⟨rfl, rfl⟩ := h
+    refine ⟨by omega, ?_⟩
+    intro c' hc'; simp at hc'; subst hc'; simp
+
+theorem WorldInv.pushCopy {w w' : World} {i : Nat} {src : List UInt8} (hw : WorldInv w)
+    (h : w.pushCopy i src = some w') : WorldInv w' ∧ w.next ≤ w'.next ∧ w'.exts = w.exts := by
+  obtain ⟨v, hv, ⟨_, rfl⟩ | ⟨hne, arena', next', chunk, off, v2, hal, ho, rfl⟩⟩ := pushCopy_spec h
+  · exact ⟨hw, Nat.le_refl _, rfl⟩
+  · have hvok := hw.iovOk i v hv
+    obtain ⟨hn, hck, hao⟩ := alloc_ok hvok.cacheLt hal
+    refine ⟨?_, hn, rfl⟩
+    refine hw.transfer hn ⟨[], by simp [World.setIov]⟩ ?_ (fun j a hj => Or.inl (by simpa using hj))
+      (fun j s hj => Or.inl (by simpa using hj))
+    intro j x hj
+    simp only [iov_with_heap_next, iov_setIov] at hj
+    split at hj
+    · right
+      simp at hj; subst hj
+      refine IovOk.optimize ?_ ho
+      have hlen : 0 < src.length := by cases src <;> simp_all
+      refine ⟨copyAnchors_guard hvok.guard _ _ _ hlen, ?_, hao, ?_⟩
+      · intro k hk
+        rcases copyAnchors_chunks _ _ k hk with hk | rfl
+        · exact Nat.lt_of_lt_of_le (hvok.anchorsLt k hk) hn
+        · exact hck
+      · intro s hs
+        simp only [List.mem_append, List.mem_singleton] at hs
+        rcases hs with hs | rfl
+        · exact hvok.extOk s hs
+        · intro b hb; simp at hb
+    · exact Or.inl hj
+
+/-- `push_borrowed` of a slice that is a caller buffer, or an owned one whose chunk the anchor pushed
+right after it (`push_anchor(c)`) holds. -/
+theorem IovOk.pushBorrowedSlice {n : Nat} {e : List (List UInt8)} {v v' : Iov} {s : Slice} (hv : IovOk n e v)
+    (h : v.pushBorrowedSlice s = some v') (hs : ExtOk e s) (c : Option Nat)
+    (hc : ∀ k, s.region = .chunk k → c = some k) (hcn : ∀ k, c = some k → k < n) :
+    IovOk n e { v' with anchors := v'.anchors ++ [⟨0, c⟩] } := by
+  have hz : AllZero [(⟨0, c⟩ : Anchor)] := by intro z hz; simp at hz; subst hz; rfl
+  refine ⟨?_, ?_, ?_, ?_⟩
+  · refine pushBorrowedSlice_guard _ hz (hv.guard.snoc_anchor c) h ?_
+    intro k hk
+    rw [mem_anchorChunks]; exact ⟨_, List.mem_singleton.2 rfl, hc k hk⟩
+  · intro k hk
+    simp only [anchorChunks_append, List.mem_append] at hk
+    rcases hk with hk | hk
+    · rw [pushBorrowedSlice_chunks h] at hk; exact hv.anchorsLt k hk
+    · simp [anchorChunks] at hk; exact hcn k hk
+  · simp only; rw [pushBorrowedSlice_arena h]; exact hv.cacheLt
+  · intro x hx b hb
+    rcases pushBorrowedSlice_ext h x hx b hb with hx | rfl
+    · exact hv.extOk x hx b hb
+    · exact hs b hb
+
+theorem IovOk.pushBorrowedSlice_noChunk {n : Nat} {e : List (List UInt8)} {v v' : Iov} {s : Slice} (hv : IovOk n e v)
+    (h : v.pushBorrowedSlice s = some v') (hs : ExtOk e s) (hc : ∀ k, s.region ≠ .chunk k) : IovOk n e v' := by
+  refine ⟨?_, ?_, ?_, ?_⟩
+  · have := pushBorrowedSlice_guard [] (by intro z hz; simp at hz) (by simpa using hv.guard) h
+      (by intro k hk; exact absurd hk (hc k))
+    simpa using this
+  · rw [pushBorrowedSlice_chunks h]; exact hv.anchorsLt
+  · rw [pushBorrowedSlice_arena h]; exact hv.cacheLt
+  · intro x hx b hb
+    rcases pushBorrowedSlice_ext h x hx b hb with hx | rfl
+    · exact hv.extOk x hx b hb
+    · exact hs b hb
+
+theorem WorldInv.setIov {w : World} {i : Nat} {x : Option Iov} (hw : WorldInv w)
+    (hx : ∀ v, x = some v → IovOk w.next w.exts v) : WorldInv (w.setIov i x) := by
+  refine hw.transfer (Nat.le_refl _) ⟨[], by simp [World.setIov]⟩ ?_ (fun j a hj => Or.inl (by simpa using hj))
+    (fun j s hj => Or.inl (by simpa using hj))
+  intro j v hj
+  simp only [iov_setIov] at hj
+  split at hj
+  · exact Or.inr (hx v hj)
+  · exact Or.inl hj
+
+theorem WorldInv.pushBorrowed_ext {w w' : World} {i : Nat} {s : Slice} (hw : WorldInv w)
+    (h : w.pushBorrowed i s = some w') (hs : ExtOk w.exts s) (hc : ∀ k, s.region ≠ .chunk k) :
+    WorldInv w' ∧ w'.next = w.next ∧ w'.exts = w.exts := by
+  obtain ⟨v, hv, ⟨_, rfl⟩ | ⟨_, v', hp, rfl⟩⟩ := pushBorrowed_spec h
+  · exact ⟨hw, rfl, rfl⟩
+  · refine ⟨hw.setIov ?_, rfl, rfl⟩
+    intro x hx; cases hx
+    exact (hw.iovOk i v hv).pushBorrowedSlice_noChunk hp hs hc
+
+/-! caller buffers -/
+
+def addExtStep (acc : World × List Slice) (bs : List UInt8) : World × List Slice :=
+  ({ acc.1 with exts := acc.1.exts ++ [bs] }, acc.2 ++ [⟨.ext acc.1.exts.length, 0, bs.length⟩])
+
+theorem addExts_eq (w : World) (bufs : List (List UInt8)) : w.addExts bufs = bufs.foldl addExtStep (w, []) := rfl
+
+theorem addExts_go (bufs : List (List UInt8)) : ∀ (w : World) (acc : List Slice),
+    (bufs.foldl addExtStep (w, acc)).1 = { w with exts := w.exts ++ bufs } ∧
+    ∃ new, (bufs.foldl addExtStep (w, acc)).2 = acc ++ new ∧
+      ∀ s ∈ new, (∃ b, s.region = .ext b) ∧ ExtOk (w.exts ++ bufs) s := by
+  induction bufs with
+  | nil => intro w acc; exact ⟨by simp, [], by simp, by simp⟩
+  | cons bs rest ih =>
+    intro w acc
+    rw [List.foldl_cons]
+    obtain ⟨h1, new, h2, h3⟩ := ih { w with exts := w.exts ++ [bs] } (acc ++ [⟨.ext w.exts.length, 0, bs.length⟩])
+    refine ⟨?_, ⟨.ext w.exts.length, 0, bs.length⟩ :: new, ?_, ?_⟩
+    · show (List.foldl addExtStep ({ w with exts := w.exts ++ [bs] }, acc ++ [⟨.ext w.exts.length, 0, bs.length⟩]) rest).1 = _
+      rw [h1]; simp
+    · show (List.foldl addExtStep ({ w with exts := w.exts ++ [bs] }, acc ++ [⟨.ext w.exts.length, 0, bs.length⟩]) rest).2 = _
+      rw [h2]; simp
+    intro s hs
+    simp only [List.mem_cons] at hs
+    rcases hs with rfl | hs
+    · refine ⟨⟨_, rfl⟩, ?_⟩
+      intro b hb
+      simp at hb; subst hb
+      refine ⟨by simp, ?_⟩
+      simp [List.getD_eq_getElem?_getD]
+    · have := h3 s hs
+      simpa using this
+
+theorem addExts_spec (w : World) (bufs : List (List UInt8)) :
+    (w.addExts bufs).1 = { w with exts := w.exts ++ bufs } ∧
+    ∀ s ∈ (w.addExts bufs).2, (∃ b, s.region = .ext b) ∧ ExtOk (w.exts ++ bufs) s := by
+  obtain ⟨h1, new, h2, h3⟩ := addExts_go bufs w []
+  rw [addExts_eq]
+  refine ⟨h1, ?_⟩
+  rw [h2]; simpa using h3
+
+theorem WorldInv.with_exts {w : World} (hw : WorldInv w) (t : List (List UInt8)) :
+    WorldInv { w with exts := w.exts ++ t } :=
+  hw.transfer (Nat.le_refl _) ⟨t, rfl⟩ (fun _ _ h => Or.inl h) (fun _ _ h => Or.inl h) (fun _ _ h => Or.inl h)
+
+theorem WorldInv.extend {w w' : World} {i : Nat} {slices : List Slice} (hw : WorldInv w)
+    (h : w.extend i slices = some w') (hs : ∀ s ∈ slices, (∃ b, s.region = .ext b) ∧ ExtOk w.exts s) :
+    WorldInv w' ∧ w'.next = w.next ∧ w'.exts = w.exts := by
+  induction slices generalizing w with
+  | nil => simp [World.extend] at h; subst h; exact ⟨hw, rfl, rfl⟩
+  | cons s rest ih =>
+    unfold World.extend at h
+    split at h
+    · exact ih hw h (fun x hx => hs x (by simp [hx]))
+    · split at h
+      · simp at h
+      · rename_i w1 hw1
+        obtain ⟨⟨b, hb⟩, hext⟩ := hs s (by simp)
+        obtain ⟨h1, h2, h3⟩ := hw.pushBorrowed_ext hw1 hext (by intro k hk; rw [hb] at hk; cases hk)
+        obtain ⟨h4, h5, h6⟩ := ih h1 h (fun x hx => by rw [h3]; exact hs x (by simp [hx]))
+        exact ⟨h4, by rw [h5, h2], by rw [h6, h3]⟩
+
+theorem WorldInv.addIov {w : World} {v : Iov} (hw : WorldInv w) (hv : IovOk w.next w.exts v) :
+    WorldInv (w.addIov v).1 := by
+  refine hw.transfer (Nat.le_refl _) ⟨[], by simp [World.addIov]⟩ ?_ (fun j a hj => Or.inl (by simpa using hj))
+    (fun j s hj => Or.inl (by simpa using hj))
+  intro j x hj
+  simp only [iov_addIov] at hj
+  split at hj
+  · simp at hj; subst hj; exact Or.inr hv
+  · exact Or.inl hj
+
+theorem WorldInv.addArena {w : World} {a : Arena} (hw : WorldInv w) (ha : ArenaOk w.next a) :
+    WorldInv (w.addArena a).1 := by
+  refine hw.transfer (Nat.le_refl _) ⟨[], by simp [World.addArena]⟩ (fun j a hj => Or.inl (by simpa using hj)) ?_
+    (fun j s hj => Or.inl (by simpa using hj))
+  intro j x hj
+  simp only [arena_addArena] at hj
+  split at hj
+  · simp at hj; subst hj; exact Or.inr ha
+  · exact Or.inl hj
+
+theorem WorldInv.addASlice {w : World} {s : ASlice} (hw : WorldInv w) (hs : ASliceOk w.next s) :
+    WorldInv (w.addASlice s).1 := by
+  refine hw.transfer (Nat.le_refl _) ⟨[], by simp [World.addASlice]⟩ (fun j a hj => Or.inl (by simpa using hj))
+    (fun j s hj => Or.inl (by simpa using hj)) ?_
+  intro j x hj
+  simp only [aslice_addASlice] at hj
+  split at hj
+  · simp at hj; subst hj; exact Or.inr hs
+  · exact Or.inl hj
+
+theorem WorldInv.setArena {w : World} {i : Nat} {x : Option Arena} (hw : WorldInv w)
+    (hx : ∀ a, x = some a → ArenaOk w.next a) : WorldInv (w.setArena i x) := by
+  refine hw.transfer (Nat.le_refl _) ⟨[], by simp [World.setArena]⟩ (fun j a hj => Or.inl (by simpa using hj)) ?_
+    (fun j s hj => Or.inl (by simpa using hj))
+  intro j v hj
+  simp only [arena_setArena] at hj
+  split at hj
+  · exact Or.inr (hx v hj)
+  · exact Or.inl hj
+
+theorem WorldInv.setASlice {w : World} {i : Nat} {x : Option ASlice} (hw : WorldInv w)
+    (hx : ∀ a, x = some a → ASliceOk w.next a) : WorldInv (w.setASlice i x) := by
+  refine hw.transfer (Nat.le_refl _) ⟨[], by simp [World.setASlice]⟩ (fun j a hj => Or.inl (by simpa using hj))
+    (fun j s hj => Or.inl (by simpa using hj)) ?_
+  intro j v hj
+  simp only [aslice_setASlice] at hj
+  split at hj
+  · exact Or.inr (hx v hj)
+  · exact Or.inl hj
+
+theorem WorldInv.with_heap {w : World} (hw : WorldInv w) (h : Heap) : WorldInv { w with heap := h } :=
+  ⟨hw.iovOk, hw.arenaOk, hw.asliceOk⟩
+
+theorem WorldInv.with_next {w : World} (hw : WorldInv w) {n : Nat} (hn : w.next ≤ n) : WorldInv { w with next := n } :=
+  hw.transfer hn ⟨[], by simp⟩ (fun _ _ h => Or.inl h) (fun _ _ h => Or.inl h) (fun _ _ h => Or.inl h)
+
+theorem WorldInv.with_brefs {w : World} (hw : WorldInv w) (b : List Backref) : WorldInv { w with brefs := b } :=
+  ⟨hw.iovOk, hw.arenaOk, hw.asliceOk⟩
+
+theorem IovOk.with_backrefs {n : Nat} {e : List (List UInt8)} {v : Iov} (h : IovOk n e v)
+    (b : List (Nat × BackrefInfo)) : IovOk n e { v with backrefs := b } :=
+  ⟨h.guard, h.anchorsLt, h.cacheLt, h.extOk⟩
+
+
+theorem release_ok {n : Nat} {a : Arena} (ha : ArenaOk n a) (k : Nat) : ArenaOk n (release a k) := by
+  unfold release
+  split
+  · rename_i c hc
+    intro c' hc'; simp at hc'; subst hc'; exact ha c hc
+  · exact ha
+
+theorem readN_inv {w w1 : World} {a ar' : Arena} {r : ReadN.Reader} {count attempts : Nat}
+    {res : Except Nat ASlice} {o : ReadN.Out} (ha : ArenaOk w.next a)
+    (h : w.readN a r count attempts = (w1, ar', res, o)) :
+    (∃ hp nx, w1 = { w with heap := hp, next := nx }) ∧ w.next ≤ w1.next ∧ ArenaOk w1.next ar' ∧
+      ∀ s, res = .ok s → ASliceOk w1.next s := by
+  unfold World.readN at h
+  split at h
+  · simp at h
+    obtain ⟨rfl, rfl, rfl, _⟩ := h
+    refine ⟨⟨w.heap, w.next, rfl⟩, Nat.le_refl _, ha, ?_⟩
+    intro s hs; cases hs; exact aSliceOk_empty _
+  · rcases hal : alloc w.tun a w.next count with ⟨a1, next1, chunk, off⟩
+    obtain ⟨hn, hck, hao⟩ := alloc_ok ha hal
+    simp only [hal] at h
+    cases hres : (ReadN.readNCore r count attempts).res with
+    | ok got =>
+      simp only [hres] at h
+      simp only [Prod.mk.injEq] at h
+      obtain ⟨rfl, rfl, rfl, _⟩ := h
+      refine ⟨⟨_, _, rfl⟩, hn, release_ok hao _, ?_⟩
+      intro s hs
+      simp at hs; subst hs
+      exact ⟨by intro k hk; simp at hk; simp [hk], by intro k hk; simp at hk; subst hk; exact hck,
+        by intro b hb; simp at hb⟩
+    | err k =>
+      simp only [hres] at h
+      simp only [Prod.mk.injEq] at h
+      obtain ⟨rfl, rfl, rfl, _⟩ := h
+      refine ⟨⟨_, _, rfl⟩, hn, release_ok hao _, ?_⟩
+      intro s hs; cases hs
+
+theorem WorldInv.consume {w w' : World} {i count k : Nat} (hw : WorldInv w)
+    (h : w.consume i count = some (w', k)) : WorldInv w' := by
+  obtain ⟨v, n, v', hv, _, hc, rfl⟩ := consume_spec h
+  exact hw.setIov (by intro x hx; cases hx; exact (hw.iovOk i v hv).consumeSlices hc)
+
+theorem WorldInv.advance {w w' : World} {i count c : Nat} (hw : WorldInv w)
+    (h : w.advance i count = some (w', c)) : WorldInv w' := by
+  obtain ⟨v, n, v', k, hv, _, hc, rfl⟩ := advance_spec h
+  exact hw.setIov (by intro x hx; cases hx; exact (hw.iovOk i v hv).consumeBytes hc)
+
+theorem WorldInv.readInto {w w' : World} {fuel i room : Nat} {acc out : List UInt8} (hw : WorldInv w)
+    (h : World.readInto fuel w i room acc = some (w', out)) : WorldInv w' :=
+  readInto_preserves WorldInv (fun _ _ _ _ _ hp ha => hp.advance ha) fuel w i room acc w' out hw h
+
+theorem WorldInv.registerPatch {w w' : World} {i : Nat} {pat : List UInt8} {b : Backref} (hw : WorldInv w)
+    (h : w.registerPatch i pat = some (w', b)) : WorldInv w' := by
+  rcases registerPatch_spec h with ⟨_, rfl, _⟩ | ⟨_, w1, v, last, hpc, hv, _, _, _, _, rfl⟩
+  · exact hw
+  · have h1 := (hw.pushCopy hpc).1
+    exact h1.setIov (by intro x hx; cases hx; exact (h1.iovOk i v hv).with_backrefs _)
+
+theorem WorldInv.backfill {w w' : World} {i : Nat} {b : Backref} {src : List UInt8} (hw : WorldInv w)
+    (h : w.backfill i b src = some w') : WorldInv w' := by
+  obtain ⟨v, hv, ⟨_, _, rfl⟩ | ⟨key, info, target, k, _, _, _, _, _, _, _, rfl⟩⟩ := backfill_spec h
+  · exact hw
+  · exact (hw.setIov (by intro x hx; cases hx; exact (hw.iovOk i v hv).with_backrefs _)).with_heap _
+
+theorem WorldInv.newFromSlices {w : World} {slices : List Slice} {a : Arena} (hw : WorldInv w)
+    (hs : ∀ s ∈ slices, (∃ b, s.region = .ext b) ∧ ExtOk w.exts s) (ha : ArenaOk w.next a) :
+    WorldInv (w.newFromSlices slices a).1 := by
+  unfold World.newFromSlices
+  refine hw.addIov ?_
+  refine ⟨?_, ?_, ha, ?_⟩
+  · simp only
+    split
+    · rename_i he
+      rw [List.isEmpty_iff] at he
+      rw [he]; exact guarded_nil.2 rfl
+    · rw [guarded_cons]
+      refine ⟨Nat.le_refl _, ?_, by simp [guarded_nil]⟩
+      intro s hs'
+      rw [List.take_length] at hs'
+      have := List.mem_filter.1 hs'
+      refine ⟨by simpa using this.2, ?_⟩
+      intro k hk
+      obtain ⟨⟨b, hb⟩, _⟩ := hs s this.1
+      rw [hb] at hk; cases hk
+  · simp only
+    split <;> simp [anchorChunks]
+  · intro s hs'
+    simp only at hs'
+    exact (hs s (List.mem_filter.1 hs').1).2
+
+theorem ASliceOk.with_slice {n : Nat} {s : ASlice} (h : ASliceOk n s) (sl : Slice) (hr : sl.region = s.slice.region)
+    (hl : sl.len ≤ s.slice.len) : ASliceOk n { s with slice := sl } :=
+  ⟨fun k hk => h.anchored k (hr ▸ hk), h.chunkLt, fun b hb => by
+    have := h.extEmpty b (hr ▸ hb); simp only; omega⟩
+
+theorem splitAt_ok {n : Nat} {s : ASlice} (h : ASliceOk n s) (mid : Nat) :
+    ASliceOk n (s.splitAt mid).1 ∧ ASliceOk n (s.splitAt mid).2 := by
+  unfold ASlice.splitAt
+  split
+  · exact ⟨h, aSliceOk_empty n⟩
+  · exact ⟨h.with_slice _ rfl (by simp; omega), h.with_slice _ rfl (by simp)⟩
+
+/-- (N), (G), (A), (E) are preserved by every operation of the vocabulary. -/
+theorem WorldInv.step {w w' : World} {op : Op} (hw : WorldInv w) (h : w.step op = some w') : WorldInv w' := by
+  cases op with
+  | new => simp [World.step] at h; subst h; exact hw.addIov (iovOk_empty _ _)
+  | newArena => simp [World.step] at h; subst h; exact hw.addArena (by intro c hc; simp at hc)
+  | newFromArena a =>
+    simp only [World.step] at h
+    split at h
+    · rename_i ar har
+      simp at h; subst h
+      refine (hw.setArena (by intro a ha; cases ha)).addIov ?_
+      exact (iovOk_empty _ _).with_arena ar (hw.arenaOk a ar har)
+    · simp at h
+  | newFromSlices bufs =>
+    simp only [World.step] at h
+    obtain ⟨h1, h2⟩ := addExts_spec w bufs
+    simp at h; subst h
+    rw [h1]
+    exact (hw.with_exts bufs).newFromSlices (fun s hs => h2 s hs) (by intro c hc; simp at hc)
+  | push i bs =>
+    simp only [World.step, World.addExt] at h
+    have hw1 : WorldInv { w with exts := w.exts ++ [bs] } := hw.with_exts [bs]
+    have hext : ExtOk (w.exts ++ [bs]) ⟨.ext w.exts.length, 0, bs.length⟩ := by
+      intro b hb; simp at hb; subst hb
+      exact ⟨by simp, by simp [List.getD_eq_getElem?_getD]⟩
+    rcases push_cases h with h | h
+    · exact (hw1.pushCopy h).1
+    · exact (hw1.pushBorrowed_ext h hext (by intro k hk; simp at hk)).1
+  | pushBorrowed i bs =>
+    simp only [World.step, World.addExt] at h
+    have hw1 : WorldInv { w with exts := w.exts ++ [bs] } := hw.with_exts [bs]
+    have hext : ExtOk (w.exts ++ [bs]) ⟨.ext w.exts.length, 0, bs.length⟩ := by
+      intro b hb; simp at hb; subst hb
+      exact ⟨by simp, by simp [List.getD_eq_getElem?_getD]⟩
+    exact (hw1.pushBorrowed_ext h hext (by intro k hk; simp at hk)).1
+  | pushCopy i bs => exact (hw.pushCopy h).1
+  | register i pat =>
+    simp only [World.step] at h
+    split at h
+    · rename_i w1 b hr
+      simp at h; subst h
+      exact (hw.registerPatch hr).with_brefs _
+    · simp at h
+  | extend i bufs =>
+    simp only [World.step] at h
+    obtain ⟨h1, h2⟩ := addExts_spec w bufs
+    rw [h1] at h
+    exact ((hw.with_exts bufs).extend h h2).1
+  | consume i k =>
+    simp only [World.step] at h
+    split at h
+    · rename_i w1 c hc; simp at h; subst h; exact hw.consume hc
+    · simp at h
+  | advance i k =>
+    simp only [World.step] at h
+    split at h
+    · rename_i w1 c hc; simp at h; subst h; exact hw.advance hc
+    · simp at h
+  | read i k =>
+    simp only [World.step] at h
+    split at h
+    · rename_i w1 c hc; simp at h; subst h; exact hw.readInto hc
+    · simp at h
+  | reserve i k =>
+    simp only [World.step] at h
+    split at h
+    · rename_i v hv
+      rcases hec : ensureCapacity w.tun v.arena w.next k with ⟨a', nx⟩
+      simp [hec] at h; subst h
+      have hvok := hw.iovOk i v hv
+      obtain ⟨hn, hao⟩ := ensureCapacity_ok hvok.cacheLt hec
+      refine (hw.with_next hn).setIov ?_
+      intro x hx; cases hx
+      have := (hvok.mono (t := []) hn).with_arena a' hao
+      simpa using this
+    · simp at h
+  | pushASlice i si =>
+    simp only [World.step] at h
+    split at h
+    · rename_i a ha
+      have haok := hw.asliceOk si a ha
+      have hw0 : WorldInv (w.setASlice si none) := hw.setASlice (by intro x hx; cases hx)
+      split at h
+      · simp at h; subst h; exact hw0
+      · rename_i hlen
+        split at h
+        · rename_i w1 hpush
+          unfold World.pushAnchor at h
+          split at h
+          · simp at h
+          · rename_i v1 hv1
+            simp at h; subst h
+            rcases push_cases hpush with hp | hp
+            · have h1 := (hw0.pushCopy hp).1
+              refine h1.setIov ?_
+              intro x hx; cases hx
+              have hv1ok := h1.iovOk i v1 hv1
+              refine ⟨hv1ok.guard.snoc_anchor _, ?_, hv1ok.cacheLt, hv1ok.extOk⟩
+              intro k hk
+              simp only [anchorChunks_append, List.mem_append] at hk
+              rcases hk with hk | hk
+              · exact hv1ok.anchorsLt k hk
+              · simp [anchorChunks] at hk
+                exact Nat.lt_of_lt_of_le (haok.chunkLt k hk) (hw0.pushCopy hp).2.1
+            · obtain ⟨v, hv, ⟨h0, _⟩ | ⟨_, v', hpb, rfl⟩⟩ := pushBorrowed_spec hp
+              · omega
+              · simp at hv1; subst hv1
+                have hvok := hw0.iovOk i v hv
+                have : IovOk w.next w.exts { v' with anchors := v'.anchors ++ [⟨0, a.anchor.chunk⟩] } := by
+                  refine hvok.pushBorrowedSlice hpb ?_ a.anchor.chunk haok.anchored haok.chunkLt
+                  intro b hb; have := haok.extEmpty b hb; omega
+                have h2 : WorldInv ((w.setASlice si none).setIov i (some { v' with anchors := v'.anchors ++ [⟨0, a.anchor.chunk⟩] })) :=
+                  hw0.setIov (by intro x hx; cases hx; exact this)
+                refine h2.transfer (Nat.le_refl _) ⟨[], by simp [World.setIov]⟩ ?_ (fun _ _ h => Or.inl (by simpa using h))
+                  (fun _ _ h => Or.inl (by simpa using h))
+                intro j x hj
+                left
+                simp only [iov_setIov] at hj ⊢
+                split at hj <;> simp_all
+        · simp at h
+    · simp at h
+  | swapArena i ai =>
+    simp only [World.step] at h
+    split at h
+    · rename_i v ar hv har
+      simp at h; subst h
+      refine (hw.setArena (by intro a ha; cases ha; exact (hw.iovOk i v hv).cacheLt)).setIov ?_
+      intro x hx; cases hx
+      exact (hw.iovOk i v hv).with_arena ar (hw.arenaOk ai ar har)
+    · simp at h
+  | aReserve ai k =>
+    simp only [World.step] at h
+    split at h
+    · rename_i ar har
+      rcases hec : ensureCapacity w.tun ar w.next k with ⟨a', nx⟩
+      simp [hec] at h; subst h
+      obtain ⟨hn, hao⟩ := ensureCapacity_ok (hw.arenaOk ai ar har) hec
+      exact (hw.with_next hn).setArena (by intro x hx; cases hx; exact hao)
+    · simp at h
+  | sSkip si k =>
+    simp only [World.step] at h
+    split at h
+    · rename_i a ha
+      simp at h; subst h
+      refine hw.setASlice ?_
+      intro x hx; cases hx
+      exact (hw.asliceOk si a ha).with_slice _ rfl (by simp)
+    · simp at h
+  | sDropSuf si k =>
+    simp only [World.step] at h
+    split at h
+    · rename_i a ha
+      simp at h; subst h
+      refine hw.setASlice ?_
+      intro x hx; cases hx
+      exact (hw.asliceOk si a ha).with_slice _ rfl (by simp)
+    · simp at h
+  | sSplit si k =>
+    simp only [World.step] at h
+    split at h
+    · rename_i a ha
+      simp at h; subst h
+      obtain ⟨h1, h2⟩ := splitAt_ok (hw.asliceOk si a ha) k
+      exact ((hw.setASlice (by intro x hx; cases hx)).addASlice h1).addASlice h2
+    · simp at h
+  | backfill i bi bs =>
+    simp only [World.step] at h
+    split at h
+    · exact hw.backfill h
+    · simp at h
+  | pop i =>
+    simp only [World.step] at h
+    split at h
+    · rename_i w1 hc; simp at h; subst h; exact hw.consume hc
+    · simp at h
+  | clear i =>
+    simp only [World.step, World.clear] at h
+    split at h
+    · simp at h
+    · rename_i v hv
+      simp at h; subst h
+      exact hw.setIov (by intro x hx; cases hx; exact (iovOk_empty _ _).with_arena _ (hw.iovOk i v hv).cacheLt)
+  | take i =>
+    simp only [World.step, World.take] at h
+    split at h
+    · rename_i w1 j ht
+      split at ht
+      · simp at ht
+      · rename_i v hv
+        simp at ht h
+        subst h
+        rw [← ht.1]
+        exact (hw.setIov (by intro x hx; cases hx; exact iovOk_empty _ _)).addIov (hw.iovOk i v hv)
+    · simp at h
+  | clone i =>
+    simp only [World.step, World.clone] at h
+    split at h
+    · rename_i w1 j ht
+      split at ht
+      · simp at ht
+      · rename_i v hv
+        simp only [Option.some.injEq] at ht
+        simp at h
+        subst h
+        have e : w1 = (w.addIov { v with arena := ⟨none⟩ }).1 := by rw [ht]
+        rw [e]
+        exact hw.addIov ((hw.iovOk i v hv).with_arena _ (by intro c hc; simp at hc))
+    · simp at h
+  | drop i =>
+    simp only [World.step, World.dropIov] at h
+    split at h
+    · simp at h
+    · simp at h; subst h; exact hw.setIov (by intro x hx; cases hx)
+  | flush i =>
+    simp only [World.step] at h
+    split at h
+    · rename_i v hv
+      simp at h; subst h
+      exact hw.setIov (by intro x hx; cases hx; exact (hw.iovOk i v hv).with_arena _ (by intro c hc; simp [flush] at hc))
+    · simp at h
+  | takeArena i =>
+    simp only [World.step] at h
+    split at h
+    · rename_i v hv
+      simp at h; subst h
+      exact (hw.setIov (by intro x hx; cases hx; exact (hw.iovOk i v hv).with_arena _ (by intro c hc; simp at hc))).addArena
+        (hw.iovOk i v hv).cacheLt
+    · simp at h
+  | aFlush ai =>
+    simp only [World.step] at h
+    split at h
+    · simp at h; subst h
+      exact hw.setArena (by intro x hx; cases hx; intro c hc; simp [flush] at hc)
+    · simp at h
+  | dropArena ai =>
+    simp only [World.step] at h
+    split at h
+    · simp at h; subst h; exact hw.setArena (by intro x hx; cases hx)
+    · simp at h
+  | sTake si =>
+    simp only [World.step] at h
+    split at h
+    · rename_i a ha
+      simp at h; subst h
+      exact (hw.setASlice (by intro x hx; cases hx; exact aSliceOk_empty _)).addASlice (hw.asliceOk si a ha)
+    · simp at h
+  | sClone si =>
+    simp only [World.step] at h
+    split at h
+    · rename_i a ha
+      simp at h; subst h
+      exact hw.addASlice (hw.asliceOk si a ha)
+    · simp at h
+  | sDrop si =>
+    simp only [World.step] at h
+    split at h
+    · simp at h; subst h; exact hw.setASlice (by intro x hx; cases hx)
+    · simp at h
+  | readNIov i count attempts src script =>
+    simp only [World.step, World.readNIov] at h
+    split at h
+    · simp at h
+    · rename_i v hv
+      rcases hr : w.readN v.arena ⟨src, script⟩ count attempts with ⟨w1, ar', res, o⟩
+      simp only [hr] at h
+      obtain ⟨⟨hp, nx, rfl⟩, hn, hao, hres⟩ := readN_inv (hw.iovOk i v hv).cacheLt hr
+      have hw1 : WorldInv { w with heap := hp, next := nx } := (hw.with_next hn).with_heap hp
+      have hiov : ({ w with heap := hp, next := nx } : World).iov i = some v := hv
+      simp only [hiov] at h
+      have hw2 : WorldInv (({ w with heap := hp, next := nx } : World).setIov i (some { v with arena := ar' })) :=
+        hw1.setIov (by intro x hx; cases hx; exact (hw1.iovOk i v hiov).with_arena _ hao)
+      cases res with
+      | ok a => simp at h; subst h; exact hw2.addASlice (hres a rfl)
+      | error k => simp at h; subst h; exact hw2
+  | readNArena j count attempts src script =>
+    simp only [World.step, World.readNArena] at h
+    split at h
+    · simp at h
+    · rename_i ar har
+      rcases hr : w.readN ar ⟨src, script⟩ count attempts with ⟨w1, ar', res, o⟩
+      simp only [hr] at h
+      obtain ⟨⟨hp, nx, rfl⟩, hn, hao, hres⟩ := readN_inv (hw.arenaOk j ar har) hr
+      have hw1 : WorldInv { w with heap := hp, next := nx } := (hw.with_next hn).with_heap hp
+      have hw2 : WorldInv (({ w with heap := hp, next := nx } : World).setArena j (some ar')) :=
+        hw1.setArena (by intro x hx; cases hx; exact hao)
+      cases res with
+      | ok a => simp at h; subst h; exact hw2.addASlice (hres a rfl)
+      | error k => simp at h; subst h; exact hw2
+
+
+/-! ### Histories -/
+
+theorem run_preserves (P : World → Prop) (hstep : ∀ w w' op, P w → w.step op = some w' → P w') :
+    ∀ (ops : List Op) (w w' : World), P w → w.run ops = some w' → P w' := by
+  intro ops
+  induction ops with
+  | nil => intro w w' hp h; simp [World.run] at h; subst h; exact hp
+  | cons op rest ih =>
+    intro w w' hp h
+    unfold World.run at h
+    split at h
+    · rename_i w1 h1; exact ih w1 w' (hstep w w1 op hp h1) h
+    · simp at h
+
+theorem run_append (w : World) (ops1 ops2 : List Op) :
+    w.run (ops1 ++ ops2) = (w.run ops1).bind (fun w1 => w1.run ops2) := by
+  induction ops1 generalizing w with
+  | nil => simp [World.run]
+  | cons op rest ih =>
+    simp only [List.cons_append, World.run]
+    cases w.step op with
+    | none => simp
+    | some w1 => simp [ih]
+
+/-- `w` is the state after some history of the `iovec` op vocabulary (any policy / tuning constants). -/
+def Reachable (w : World) : Prop := ∃ pol tun ops, (World.init pol tun).run ops = some w
+
+theorem Reachable.inv {w : World} (h : Reachable w) : WorldInv w := by
+  obtain ⟨pol, tun, ops, h⟩ := h
+  exact run_preserves WorldInv (fun _ _ _ hp hs => hp.step hs) ops _ _ (worldInv_init pol tun) h
+
+theorem Reachable.step {w w' : World} {op : Op} (h : Reachable w) (hs : w.step op = some w') : Reachable w' := by
+  obtain ⟨pol, tun, ops, h⟩ := h
+  refine ⟨pol, tun, ops ++ [op], ?_⟩
+  rw [run_append, h]; simp [World.run, hs]
+
+/-! ### Derived liveness -/
+
+theorem getD_none_eq_some {α} {l : List (Option α)} {i : Nat} {v : α} :
+    l.getD i none = some v ↔ l[i]? = some (some v) := by
+  rw [List.getD_eq_getElem?_getD]
+  cases l[i]? with
+  | none => simp
+  | some o => simp
+
+theorem mem_iff_getD {α} {l : List (Option α)} {v : α} : some v ∈ l ↔ ∃ i, l.getD i none = some v := by
+  rw [List.mem_iff_getElem?]
+  constructor
+  · rintro ⟨i, hi⟩; exact ⟨i, getD_none_eq_some.2 hi⟩
+  · rintro ⟨i, hi⟩; exact ⟨i, getD_none_eq_some.1 hi⟩
+
+theorem mem_foldl_iovs (l : List (Option Iov)) (init : List Nat) (k : Nat) :
+    k ∈ l.foldl (fun acc o => match o with
+      | some v => acc ++ arenaChunks v.arena ++ anchorChunks v.anchors
+      | none => acc) init ↔
+    k ∈ init ∨ ∃ v, some v ∈ l ∧ (k ∈ arenaChunks v.arena ∨ k ∈ anchorChunks v.anchors) := by
+  induction l generalizing init with
+  | nil => simp
+  | cons o rest ih =>
+    rw [List.foldl_cons, ih]
+    cases o with
+    | none => simp
+    | some v =>
+      simp only [List.mem_append, List.mem_cons]
+      constructor
+      · rintro (((h | h) | h) | ⟨v', hv', h⟩)
+        · exact Or.inl h
+        · exact Or.inr ⟨v, Or.inl rfl, Or.inl h⟩
+        · exact Or.inr ⟨v, Or.inl rfl, Or.inr h⟩
+        · exact Or.inr ⟨v', Or.inr hv', h⟩
+      · rintro (h | ⟨v', hv' | hv', h⟩)
+        · exact Or.inl (Or.inl (Or.inl h))
+        · simp at hv'; subst hv'
+          rcases h with h | h
+          · exact Or.inl (Or.inl (Or.inr h))
+          · exact Or.inl (Or.inr h)
+        · exact Or.inr ⟨v', hv', h⟩
+
+theorem mem_foldl_arenas (l : List (Option Arena)) (init : List Nat) (k : Nat) :
+    k ∈ l.foldl (fun acc o => match o with
+      | some a => acc ++ arenaChunks a
+      | none => acc) init ↔
+    k ∈ init ∨ ∃ a, some a ∈ l ∧ k ∈ arenaChunks a := by
+  induction l generalizing init with
+  | nil => simp
+  | cons o rest ih =>
+    rw [List.foldl_cons, ih]
+    cases o with
+    | none => simp
+    | some v =>
+      simp only [List.mem_append, List.mem_cons]
+      constructor
+      · rintro ((h | h) | ⟨v', hv', h⟩)
+        · exact Or.inl h
+        · exact Or.inr ⟨v, Or.inl rfl, h⟩
+        · exact Or.inr ⟨v', Or.inr hv', h⟩
+      · rintro (h | ⟨v', hv' | hv', h⟩)
+        · exact Or.inl (Or.inl h)
+        · simp at hv'; subst hv'; exact Or.inl (Or.inr h)
+        · exact Or.inr ⟨v', hv', h⟩
+
+theorem mem_foldl_aslices (l : List (Option ASlice)) (init : List Nat) (k : Nat) :
+    k ∈ l.foldl (fun acc o => match o with
+      | some s => acc ++ anchorChunks [s.anchor]
+      | none => acc) init ↔
+    k ∈ init ∨ ∃ s, some s ∈ l ∧ s.anchor.chunk = some k := by
+  induction l generalizing init with
+  | nil => simp
+  | cons o rest ih =>
+    rw [List.foldl_cons, ih]
+    cases o with
+    | none => simp
+    | some v =>
+      simp only [List.mem_append, List.mem_cons]
+      have hk : k ∈ anchorChunks [v.anchor] ↔ v.anchor.chunk = some k := by
+        rw [mem_anchorChunks]; simp
+      constructor
+      · rintro ((h | h) | ⟨v', hv', h⟩)
+        · exact Or.inl h
+        · exact Or.inr ⟨v, Or.inl rfl, hk.1 h⟩
+        · exact Or.inr ⟨v', Or.inr hv', h⟩
+      · rintro (h | ⟨v', hv' | hv', h⟩)
+        · exact Or.inl (Or.inl h)
+        · simp at hv'; subst hv'; exact Or.inl (Or.inr (hk.2 h))
+        · exact Or.inr ⟨v', hv', h⟩
+
+/-- A chunk is live iff it has been allocated and some holder references it. -/
+theorem mem_liveChunks {w : World} {k : Nat} :
+    k ∈ w.liveChunks ↔ k < w.next ∧
+      ((∃ i v, w.iov i = some v ∧ (k ∈ arenaChunks v.arena ∨ k ∈ anchorChunks v.anchors)) ∨
+       (∃ j a, w.arena j = some a ∧ k ∈ arenaChunks a) ∨
+       (∃ j s, w.aslice j = some s ∧ s.anchor.chunk = some k)) := by
+  have h1 := mem_foldl_iovs w.iovs [] k
+  have h2 := mem_foldl_arenas w.arenas [] k
+  have h3 := mem_foldl_aslices w.aslices [] k
+  simp only [List.not_mem_nil, false_or] at h1 h2 h3
+  unfold World.liveChunks
+  simp only [List.mem_filter, List.mem_range, List.contains_iff_mem, List.mem_append]
+  refine Iff.trans (and_congr Iff.rfl (or_congr (or_congr h1 h2) h3)) ?_
+  constructor
+  · rintro ⟨hlt, (⟨v, hv, h⟩ | ⟨a, ha, h⟩) | ⟨s, hs, h⟩⟩
+    · obtain ⟨i, hi⟩ := mem_iff_getD.1 hv
+      exact ⟨hlt, Or.inl ⟨i, v, hi, h⟩⟩
+    · obtain ⟨i, hi⟩ := mem_iff_getD.1 ha
+      exact ⟨hlt, Or.inr (Or.inl ⟨i, a, hi, h⟩)⟩
+    · obtain ⟨i, hi⟩ := mem_iff_getD.1 hs
+      exact ⟨hlt, Or.inr (Or.inr ⟨i, s, hi, h⟩)⟩
+  · rintro ⟨hlt, ⟨i, v, hi, h⟩ | ⟨i, a, hi, h⟩ | ⟨i, s, hi, h⟩⟩
+    · exact ⟨hlt, Or.inl (Or.inl ⟨v, mem_iff_getD.2 ⟨i, hi⟩, h⟩)⟩
+    · exact ⟨hlt, Or.inl (Or.inr ⟨a, mem_iff_getD.2 ⟨i, hi⟩, h⟩)⟩
+    · exact ⟨hlt, Or.inr ⟨s, mem_iff_getD.2 ⟨i, hi⟩, h⟩⟩
+
+/-- (C) the allocation cache holds its chunk. -/
+theorem cache_live {w : World} (hw : WorldInv w) {i : Nat} {v : Iov} {c : Cache} (hv : w.iov i = some v)
+    (hc : v.arena.cache = some c) : c.chunk ∈ w.liveChunks :=
+  mem_liveChunks.2 ⟨(hw.iovOk i v hv).cacheLt c hc, Or.inl ⟨i, v, hv, Or.inl (by simp [arenaChunks, hc])⟩⟩
+
+/-! ### The guard, index form -/
+
+theorem mem_anchorChunks_index {as : List Anchor} {k : Nat} :
+    k ∈ anchorChunks as ↔ ∃ j : Nat, ∃ a : Anchor, as[j]? = some a ∧ a.chunk = some k := by
+  rw [mem_anchorChunks]
+  constructor
+  · rintro ⟨a, ha, hk⟩
+    obtain ⟨j, hj⟩ := List.mem_iff_getElem?.1 ha
+    exact ⟨j, a, hj, hk⟩
+  · rintro ⟨j, a, hj, hk⟩
+    exact ⟨a, List.mem_iff_getElem?.2 ⟨j, hj⟩, hk⟩
+
+/-- Anchor `j` counts slice `i`: the runs before it end at or before `i`, its own run ends after `i`. -/
+def Counts (as : List Anchor) (j i : Nat) : Prop :=
+  countSum (as.take j) ≤ i ∧ i < countSum (as.take (j + 1))
+
+/-- (G) in index form: slice `i`, if owned (`chunk k`), is counted by some anchor `j` and there is an
+anchor at a position `j' ≥ j` holding `some k`. -/
+theorem Guarded.index {as : List Anchor} : ∀ {ss : List Slice}, Guarded as ss → ∀ i s, ss[i]? = some s →
+    0 < s.len ∧ ∃ j, Counts as j i ∧ ∀ k, s.region = .chunk k →
+      ∃ j' : Nat, ∃ a : Anchor, j ≤ j' ∧ as[j']? = some a ∧ a.chunk = some k := by
+  induction as with
+  | nil => intro ss h i s hs; rw [guarded_nil] at h; subst h; simp at hs
+  | cons a rest ih =>
+    intro ss h i s hs
+    obtain ⟨h1, h2, h3⟩ := guarded_cons.1 h
+    by_cases hi : i < a.count
+    · have hmem : s ∈ ss.take a.count := by
+        rw [List.mem_iff_getElem?]; exact ⟨i, by rw [List.getElem?_take]; simp [hi, hs]⟩
+      obtain ⟨hl, hk⟩ := h2 s hmem
+      refine ⟨hl, 0, ⟨by simp, by simpa using hi⟩, ?_⟩
+      intro k hk'
+      obtain ⟨j', a', hj', ha'⟩ := mem_anchorChunks_index.1 (hk k hk')
+      exact ⟨j', a', Nat.zero_le _, hj', ha'⟩
+    · have hs' : (ss.drop a.count)[i - a.count]? = some s := by
+        rw [List.getElem?_drop]; rw [show a.count + (i - a.count) = i by omega]; exact hs
+      obtain ⟨hl, j, ⟨hc1, hc2⟩, hk⟩ := ih h3 (i - a.count) s hs'
+      refine ⟨hl, j + 1, ⟨?_, ?_⟩, ?_⟩
+      · simp only [List.take_succ_cons, countSum_cons]; omega
+      · simp only [List.take_succ_cons, countSum_cons]; omega
+      · intro k hk'
+        obtain ⟨j', a', hj, hj', ha'⟩ := hk k hk'
+        exact ⟨j' + 1, a', by omega, by simpa using hj', ha'⟩
+
+
+/-! ### What "live" means for a slice the read side hands out -/
+
+/-- A slice points into live memory: a caller buffer (inside its bounds) or a chunk of the derived live set. -/
+def Live (w : World) (s : Slice) : Prop :=
+  match s.region with
+  | .ext b => b < w.exts.length ∧ s.off + s.len ≤ (w.exts.getD b []).length
+  | .chunk k => k ∈ w.liveChunks
+
+/-- Every slice of an iovec is live, and an owned one is kept alive by the iovec's OWN anchors. -/
+theorem WorldInv.iov_slice_live {w : World} (hw : WorldInv w) {i : Nat} {v : Iov} (hv : w.iov i = some v)
+    {s : Slice} (hs : s ∈ v.slices) :
+    Live w s ∧ ∀ k, s.region = .chunk k → k ∈ anchorChunks v.anchors := by
+  have hok := hw.iovOk i v hv
+  have hg := (hok.guard.mem s hs).2
+  refine ⟨?_, hg⟩
+  unfold Live
+  split
+  · rename_i b hb; exact hok.extOk s hs b hb
+  · rename_i k hk
+    have := hg k hk
+    exact mem_liveChunks.2 ⟨hok.anchorsLt k this, Or.inl ⟨i, v, hv, Or.inr this⟩⟩
+
+/-- A non-empty detached `AnchoredSlice` is owned and kept alive by its own anchor. -/
+theorem WorldInv.aslice_live {w : World} (hw : WorldInv w) {j : Nat} {a : ASlice} (ha : w.aslice j = some a)
+    (hl : a.slice.len ≠ 0) : Live w a.slice ∧ ∃ k, a.slice.region = .chunk k ∧ a.anchor.chunk = some k := by
+  have hok := hw.asliceOk j a ha
+  cases hr : a.slice.region with
+  | ext b => exact absurd (hok.extEmpty b hr) hl
+  | chunk k =>
+    have hk := hok.anchored k hr
+    refine ⟨?_, k, rfl, hk⟩
+    unfold Live
+    rw [hr]
+    exact mem_liveChunks.2 ⟨hok.chunkLt k hk, Or.inr (Or.inr ⟨j, a, ha, hk⟩)⟩
+
 end Woodpile.Iovec
